@@ -379,9 +379,11 @@ func segDigest(s *segmenter.Segmenter, n int) string {
 
 func reuseSeg(r recEnc, ops []reuseOp) {
 	var seg segmenter.Segmenter
+	var buf []rune // the caller's input buffer, edited in place between the calls
 	for _, op := range ops {
 		text := reuseSplitTexts[op.Text]
-		d, p := guard(func() string { seg.Init(text); return segDigest(&seg, len(text)) })
+		buf = append(buf[:0], text...)
+		d, p := guard(func() string { seg.Init(buf); return segDigest(&seg, len(text)) })
 		fd, _ := guard(func() string { var fresh segmenter.Segmenter; fresh.Init(text); return segDigest(&fresh, len(text)) })
 		r.op(op.Op, d, fd, p)
 	}
